@@ -31,6 +31,15 @@ class Gen:
         self.nev = len(spec['events'])
         self.sites = sites_of(self.ix)
         self.next_id = 1
+        # sites that run inside the entry cascade through an entry pseudo state (its entry, the row leaving it)
+        self.ep_sites = set()
+        for m in self.ix.order:
+            for sn, st in m['states'].items():
+                if st['kind'] == 'entry_pt':
+                    self.ep_sites.add('%s.%s' % (m['name'], sn))
+                    for row in m['table']:
+                        if row['src'] == sn and row.get('_site'):
+                            self.ep_sites.add(row['_site'])
 
     def fresh_id(self):
         i = self.next_id
@@ -57,7 +66,7 @@ class Gen:
         return self.rng.randrange(self.nev)
 
     def script(self, nops=20, effects=0.0, enqueue=0.0, fail=0.0, reads=False, stop=0.3, restart=0.0,
-               effect_kinds='GANX', effect_targets='sr', weights=None, cg_seed=True, start_effects=True, effect_api='ppq', drain1=True):
+               effect_kinds='GANX', effect_targets='sr', weights=None, cg_seed=True, start_effects=True, effect_api='ppq', drain1=True, entry_point_self=True):
         r = self.rng
         self.next_id = 1
         toks = []
@@ -94,6 +103,8 @@ class Gen:
                     tgt = r.choice(effect_targets)
                     if kind == 'X' and tgt == 's':
                         tgt = 'r'
+                    if not entry_point_self and tgt == 's' and (site if kind in 'NX' else site.rsplit('.', 1)[0]) in self.ep_sites:
+                        tgt = 'r'       # order of the entry-point continuation vs. events stored by its own cascade: left open
                     toks.append('E%s:%s:%d:%s:%s:%d:%d' % (kind, site, nth, api, tgt, self.ev(weights), self.fresh_id()))
             y = r.random()
             if enqueue and y < enqueue:
